@@ -2,8 +2,9 @@
    statements REGENERATED from the source (Gen_Sync.v, harness/gofacts genSync), and why that discipline excludes
    lock-order deadlocks.
    Discipline:
-     R1  no blocking wait (receive of a repository's collection token, WaitGroup.Wait, a call to gc / Shutdown) happens
-         while a store-wide or server-wide mutex is held, except at the sites listed in [allowed_waits];
+     R1  no blocking wait (receive of a repository's collection token, WaitGroup.Wait, a call to gc / Shutdown / RepoGet) happens
+         while a store-wide or server-wide mutex (Server.mu, Server.referrerMu, the store's mutex) is held, except at the sites
+         listed in [allowed_waits];
      R2  a mutex is only acquired while mutexes of strictly lower rank are held
          (Server.mu < referrerMu < store.mu < upload.mu < repository.mu < cache.mu);
      R3  every lock expression that occurs is one of the known classes (a new mutex has to be ranked first).
@@ -56,7 +57,7 @@ Definition rank (c : string) : option nat :=
   else None.
 
 Definition global_class (c : string) : bool :=
-  String.eqb c "Server.mu" || String.eqb c "store.mu".
+  String.eqb c "Server.mu" || String.eqb c "Server.referrerMu" || String.eqb c "store.mu".
 
 Fixpoint class_of (file expr : string) (l : list ((string * string) * string)) : option string :=
   match l with
@@ -80,7 +81,10 @@ Definition unlock_expr (s : string) : string := drop_suffix 9 s.
 
 Definition is_blocking (s : string) : bool :=
   (contains "wgBlock" s && (String.prefix "<-" s || String.prefix "case <-" s))
-  || ends_with ".wg.Wait()" s || String.eqb s "call gc" || String.eqb s "call Shutdown".
+  || ends_with ".wg.Wait()" s || String.eqb s "call gc" || String.eqb s "call Shutdown"
+  (* obtaining a repository waits at its gate while a collection runs, and the collection waits for the requests that hold the
+     repository - which may be waiting for the very mutex the caller holds (the referrers mutex is taken with a repository in hand) *)
+  || String.eqb s "call RepoGet".
 
 (* waits under a global mutex that are part of the design:
    - dir.Close keeps the store mutex while it waits for the requests in flight on each repository: new RepoGet calls
